@@ -197,130 +197,6 @@ Lemma pp_parse_root cs : Forall (fun c => good_comp c = true) cs ->
   pp_parse (s_slash :: cs) = ([47], cs).
 Proof. intros Hall. unfold pp_parse. rewrite raw_path_root by exact Hall. apply parse_root_good. exact Hall. Qed.
 
-(* ---------------------------------------------------------------- the dummy parent *)
-Definition d1 : str := [102; 111; 111].
-Definition d2 : str := [98; 111; 111].
-Definition d3 : str := [102; 117; 103; 97].
-Definition d4 : str := [104; 111; 103; 101].
-Definition d5 : str := [97; 57; 48; 115; 117; 102; 111; 105; 97; 115; 106; 48; 57].
-Definition d6 : str := [100; 97; 102; 106; 48; 56; 115; 97; 106; 102; 97].   (* "dafj08sajfa" *)
-Definition dummy_comps : list str := [d1; d2; d3; d4; d5; d6].
-Definition R5 : list str := [d5; d4; d3; d2; d1].
-Definition R : list str := d6 :: R5.                (* the dummy components, top of the stack first *)
-
-Lemma dummy_parent_eq : dummy_parent = 47 :: concat (map (fun c => c ++ [47]) dummy_comps).
-Proof. reflexivity. Qed.
-
-Lemma dummy_good : Forall (fun c => good_comp c = true) dummy_comps.
-Proof. repeat constructor. Qed.
-
-Lemma split_trailing cs rest : Forall (fun c => slashfree c = true) cs ->
-  split (concat (map (fun c => c ++ [47]) cs) ++ rest) = cs ++ split rest.
-Proof.
-  induction cs as [|c cs IHcs]; intros Hall; [reflexivity|].
-  inversion Hall as [|? ? Hc Hcs]; subst.
-  cbn [map concat]. rewrite <- !app_assoc. cbn [app].
-  rewrite split_app_slash by exact Hc. rewrite IHcs by exact Hcs. reflexivity.
-Qed.
-
-(* parts of Path(dummy).joinpath(name) for a name that does not start with '/' *)
-Lemma target_parts name : startswith_slash name = false ->
-  pp_parts (pp_joinpath [dummy_parent] name) = s_slash :: dummy_comps ++ comps name.
-Proof.
-  intros Hrel. unfold pp_joinpath, pp_parts, pp_parse. cbn [app raw_path posix_join fold_left].
-  unfold posix_join1. rewrite Hrel.
-  replace (isnil dummy_parent || endswith_slash dummy_parent) with true by reflexivity.
-  rewrite dummy_parent_eq. unfold parse_str. cbn [app isnil].
-  set (body := concat (map (fun c => c ++ [47]) dummy_comps) ++ name).
-  assert (Hbody : exists r, body = 102 :: r) by (eexists; reflexivity).
-  destruct Hbody as (r & Hr). rewrite Hr. cbn [splitroot].
-  replace (47 =? 47) with true by reflexivity. replace (102 =? 47) with false by reflexivity.
-  rewrite <- Hr. unfold body. rewrite split_trailing.
-  - rewrite filter_app. rewrite (filter_keep_good dummy_comps dummy_good). reflexivity.
-  - eapply Forall_impl; [|exact dummy_good]. intros a Ha. apply good_slashfree. exact Ha.
-Qed.
-
-(* ---------------------------------------------------------------- canonical_path below a '/' *)
-(* the stack of canonical_path above the root '/': '..' pops (nothing to pop: stays), others push *)
-Definition mstep (rest : list str) (p : str) : list str :=
-  if str_eqb p s_dotdot then tl rest else p :: rest.
-
-Definition stack_inv (c : str) : Prop := good_comp c = true /\ str_eqb c s_dotdot = false.
-
-Lemma canon_above_root cs : Forall (fun c => good_comp c = true) cs ->
-  forall rest, Forall stack_inv rest ->
-  fold_left canon_step cs (rest ++ [s_slash]) = fold_left mstep cs rest ++ [s_slash]
-  /\ Forall stack_inv (fold_left mstep cs rest).
-Proof.
-  induction cs as [|c cs IHcs]; intros Hall rest Hinv; [split; [reflexivity | exact Hinv]|].
-  inversion Hall as [|? ? Hc Hcs]; subst. cbn [fold_left].
-  assert (Hstep : canon_step (rest ++ [s_slash]) c = mstep rest c ++ [s_slash] /\ Forall stack_inv (mstep rest c)).
-  { unfold canon_step, mstep. destruct (str_eqb c s_dotdot) eqn:Hdd; cbn [negb orb].
-    - destruct rest as [|t rest'].
-      + split; [reflexivity | constructor].
-      + inversion Hinv as [|? ? Ht Hrest']; subst. destruct Ht as [Htg Htdd].
-        cbn [app isnil tl]. rewrite Htdd, (good_not_slash t Htg). split; [reflexivity | exact Hrest'].
-    - split; [reflexivity|]. constructor; [split; assumption | exact Hinv]. }
-  destruct Hstep as [Heq Hinv']. rewrite Heq. apply IHcs; assumption.
-Qed.
-
-Lemma R_inv : Forall stack_inv R.
-Proof. repeat constructor. Qed.
-
-Lemma canon_prefix cs :
-  fold_left canon_step (s_slash :: dummy_comps ++ cs) [] = fold_left canon_step cs (R ++ [s_slash]).
-Proof. change (s_slash :: dummy_comps ++ cs) with ((s_slash :: dummy_comps) ++ cs). rewrite fold_left_app. reflexivity. Qed.
-
-Lemma stack_inv_good l : Forall stack_inv l -> Forall (fun c => good_comp c = true) l.
-Proof. intros Hl. eapply Forall_impl; [|exact Hl]. intros a [Ha _]. exact Ha. Qed.
-
-Lemma parent_parse : pp_parse (canonical_path [dummy_parent]) = ([47], dummy_comps).
-Proof. reflexivity. Qed.
-
-(* what check_archive_path computes, exactly: the name does not start with '/', and after running the
-   components of the name over the stack that starts as the six dummy components, the six are still
-   (or again) at the bottom *)
-Theorem check_archive_path_char name :
-  check_archive_path name =
-  negb (startswith_slash name) && prefixb dummy_comps (rev (fold_left mstep (comps name) R)).
-Proof.
-  unfold check_archive_path, check_archive_path_cwd.
-  unfold pp_is_absolute at 1. cbn [existsb]. rewrite orb_false_r.
-  destruct (startswith_slash name) eqn:Hrel; [reflexivity|]. cbn [negb andb].
-  unfold is_path_valid. replace (pp_is_absolute [dummy_parent]) with true by reflexivity.
-  unfold h_is_relative_to, pp_is_relative_to. rewrite parent_parse.
-  unfold canonical_path. rewrite (target_parts name Hrel). rewrite canon_prefix.
-  destruct (canon_above_root (comps name) (comps_good name) R R_inv) as [Hfold Hinv].
-  rewrite Hfold. rewrite rev_app_distr. cbn [rev app].
-  set (final := fold_left mstep (comps name) R) in *.
-  assert (Hgood : Forall (fun c => good_comp c = true) (rev final)).
-  { apply Forall_rev. apply stack_inv_good. exact Hinv. }
-  rewrite (pp_parse_root (rev final) Hgood). reflexivity.
-Qed.
-
-(* ---------------------------------------------------------------- prefixes *)
-Lemma prefixb_spec a : forall l, prefixb a l = true <-> exists s, l = a ++ s.
-Proof.
-  induction a as [|x a IHa]; intros l; simpl.
-  - split; [intros _; exists l; reflexivity | reflexivity].
-  - destruct l as [|y l].
-    + split; [discriminate | intros (s & Hs); discriminate].
-    + split.
-      * intros Hp. apply andb_true_iff in Hp. destruct Hp as [Hxy Hr].
-        apply str_eqb_eq in Hxy. apply IHa in Hr. destruct Hr as (s & ->). exists s. congruence.
-      * intros (s & Hs). inversion Hs; subst. rewrite str_eqb_refl. apply IHa. exists s. reflexivity.
-Qed.
-
-(* the six dummy components are at the bottom of the stack *)
-Definition anchored (rest : list str) : Prop := exists o, rest = o ++ R.
-
-Lemma anchored_prefixb rest : prefixb dummy_comps (rev rest) = true <-> anchored rest.
-Proof.
-  rewrite prefixb_spec. unfold anchored. split.
-  - intros (s & Hs). exists (rev s). rewrite <- (rev_involutive rest), Hs, rev_app_distr. reflexivity.
-  - intros (o & ->). exists (rev o). rewrite rev_app_distr. reflexivity.
-Qed.
-
 (* ---------------------------------------------------------------- the independent definition *)
 Lemma spec_walk_filter l : forall d, spec_walk l d = spec_walk (filter keep_comp l) d.
 Proof.
@@ -342,115 +218,38 @@ Proof.
   destruct Hg as [Hn Hd]. apply negb_true_iff in Hn. apply negb_true_iff in Hd. rewrite Hn, Hd. reflexivity.
 Qed.
 
-(* a name that stays inside never touches the dummy components *)
-Lemma walk_inside cs : Forall (fun c => good_comp c = true) cs ->
-  forall others, spec_walk cs (Z.of_nat (length others)) = true ->
-  anchored (fold_left mstep cs (others ++ R)).
-Proof.
-  induction cs as [|c cs IHcs]; intros Hall others Hw.
-  - exists others. reflexivity.
-  - inversion Hall as [|? ? Hc Hcs]; subst. cbn [spec_walk] in Hw. rewrite (good_not_skipped c Hc) in Hw.
-    cbn [fold_left]. unfold mstep at 2. destruct (str_eqb c s_dotdot) eqn:Hdd.
-    + destruct (Z.of_nat (length others) - 1 <? 0) eqn:Hneg; [discriminate|].
-      destruct others as [|o others']; [simpl in Hneg; discriminate|].
-      cbn [app tl]. apply IHcs; [exact Hcs|].
-      replace (Z.of_nat (length others')) with (Z.of_nat (length (o :: others')) - 1) by (cbn [length]; lia).
-      exact Hw.
-    + change (c :: others ++ R) with ((c :: others) ++ R). apply IHcs; [exact Hcs|].
-      replace (Z.of_nat (length (c :: others))) with (Z.of_nat (length others) + 1) by (cbn [length]; lia).
-      exact Hw.
-Qed.
-
-(* once the dummy components are no longer at the bottom, only a component spelled
-   "dafj08sajfa" can put them back *)
-Lemma unanchored_persists cs : ~ In d6 cs ->
-  forall rest, ~ anchored rest -> ~ anchored (fold_left mstep cs rest).
-Proof.
-  induction cs as [|c cs IHcs]; intros Hnot rest Hun; [exact Hun|].
-  cbn [fold_left]. apply IHcs; [intros Hin; apply Hnot; right; exact Hin|].
-  unfold mstep. destruct (str_eqb c s_dotdot).
-  - intros (o & Ho). apply Hun. destruct rest as [|t rest'].
-    + simpl in Ho. destruct o; discriminate.
-    + simpl in Ho. exists (t :: o). rewrite Ho. reflexivity.
-  - intros (o & Ho). destruct o as [|o0 o'].
-    + simpl in Ho. unfold R in Ho. inversion Ho; subst. apply Hnot. left. reflexivity.
-    + simpl in Ho. inversion Ho; subst. apply Hun. exists o'. reflexivity.
-Qed.
-
-Lemma R5_unanchored : ~ anchored R5.
-Proof.
-  intros (o & Ho). apply (f_equal (@length str)) in Ho. rewrite app_length in Ho. simpl in Ho. lia.
-Qed.
-
-Lemma walk_outside cs : Forall (fun c => good_comp c = true) cs -> ~ In d6 cs ->
-  forall others, spec_walk cs (Z.of_nat (length others)) = false ->
-  ~ anchored (fold_left mstep cs (others ++ R)).
-Proof.
-  induction cs as [|c cs IHcs]; intros Hall Hnot others Hw; [discriminate|].
-  inversion Hall as [|? ? Hc Hcs]; subst. cbn [spec_walk] in Hw. rewrite (good_not_skipped c Hc) in Hw.
-  assert (Hnot' : ~ In d6 cs) by (intros Hin; apply Hnot; right; exact Hin).
-  cbn [fold_left]. unfold mstep at 2. destruct (str_eqb c s_dotdot) eqn:Hdd.
-  - destruct others as [|o others'].
-    + cbn [app tl R]. apply unanchored_persists; [exact Hnot' | exact R5_unanchored].
-    + destruct (Z.of_nat (length (o :: others')) - 1 <? 0) eqn:Hneg; [cbn [length] in Hneg; lia|].
-      cbn [app tl]. apply IHcs; [exact Hcs | exact Hnot' |].
-      replace (Z.of_nat (length others')) with (Z.of_nat (length (o :: others')) - 1) by (cbn [length]; lia).
-      exact Hw.
-  - change (c :: others ++ R) with ((c :: others) ++ R). apply IHcs; [exact Hcs | exact Hnot' |].
-    replace (Z.of_nat (length (c :: others))) with (Z.of_nat (length others) + 1) by (cbn [length]; lia).
-    exact Hw.
-Qed.
-
 (* ---------------------------------------------------------------- C16 (1): check_archive_path vs spec_ok *)
-Definition witness1 : str := [46; 46; 47] ++ d6 ++ [47; 120].                  (* "../dafj08sajfa/x" *)
-Definition witness2 : str := [97; 47; 46; 46; 47; 46; 46; 47] ++ d6.           (* "a/../../dafj08sajfa" *)
+Lemma splitroot_rel s : startswith_slash s = false -> splitroot s = ([], s).
+Proof. destruct s as [|c r]; [reflexivity|]. simpl. intros ->. reflexivity. Qed.
 
-Theorem check_archive_path_spec_refuted : exists name, check_archive_path name <> spec_ok name.
-Proof. exists witness1. vm_compute. discriminate. Qed.
-
-Theorem check_archive_path_witnesses :
-  check_archive_path witness1 = true /\ spec_ok witness1 = false /\
-  check_archive_path witness2 = true /\ spec_ok witness2 = false.
-Proof. vm_compute. repeat split; reflexivity. Qed.
-
-(* equality for every name with no component spelled like the last dummy component *)
-Theorem check_archive_path_spec_partial name :
-  ~ In d6 (split name) -> check_archive_path name = spec_ok name.
+Lemma parse_rel name : startswith_slash name = false -> parse_str name = ([], comps name).
 Proof.
-  intros Hnot. rewrite check_archive_path_char, spec_ok_comps. f_equal.
-  assert (Hnot' : ~ In d6 (comps name)).
-  { intros Hin. apply Hnot. unfold comps in Hin. apply filter_In in Hin. tauto. }
-  destruct (spec_walk (comps name) 0) eqn:Hw.
-  - apply anchored_prefixb. apply (walk_inside (comps name) (comps_good name) [] Hw).
-  - destruct (prefixb dummy_comps (rev (fold_left mstep (comps name) R))) eqn:Hp; [|reflexivity].
-    apply anchored_prefixb in Hp. exfalso.
-    exact (walk_outside (comps name) (comps_good name) Hnot' [] Hw Hp).
+  intros Hrel. unfold parse_str. destruct name as [|c r]; [reflexivity|]. cbn [isnil].
+  rewrite splitroot_rel by exact Hrel. reflexivity.
 Qed.
 
-(* unconditionally: everything that stays inside is accepted *)
-Theorem inside_accepted name : spec_ok name = true -> check_archive_path name = true.
+Lemma lex_walk_spec cs : Forall (fun c => good_comp c = true) cs -> forall d, lex_walk cs d = spec_walk cs d.
 Proof.
-  rewrite check_archive_path_char, spec_ok_comps. intros Hs. apply andb_true_iff in Hs. destruct Hs as [Ha Hw].
-  rewrite Ha. cbn [andb]. apply anchored_prefixb. apply (walk_inside (comps name) (comps_good name) [] Hw).
+  induction cs as [|c cs IHcs]; intros Hall d; [reflexivity|].
+  inversion Hall as [|? ? Hc Hcs]; subst. cbn [lex_walk spec_walk]. rewrite (good_not_skipped c Hc).
+  destruct (str_eqb c s_dotdot); [|apply IHcs; exact Hcs].
+  destruct (d - 1 <? 0); [reflexivity | apply IHcs; exact Hcs].
 Qed.
 
-(* unconditionally: absolute names are rejected *)
-Theorem absolute_rejected name : is_absolute name = true -> check_archive_path name = false /\ spec_ok name = false.
+(* the gate of writestr / writef is the independent definition, on every string *)
+Theorem check_archive_path_spec name : check_archive_path name = spec_ok name.
+Proof.
+  unfold check_archive_path, pp_is_absolute, pp_anchor. cbn [existsb]. rewrite orb_false_r.
+  rewrite spec_ok_comps. destruct (startswith_slash name) eqn:Hs; [reflexivity|]. cbn [negb andb orb].
+  unfold pp_parts, pp_parse. cbn [raw_path]. rewrite (parse_rel name Hs). cbn [fst isnil negb].
+  apply lex_walk_spec. apply comps_good.
+Qed.
+
+Theorem absolute_rejected name : is_absolute name = true -> check_archive_path name = false.
 Proof.
   unfold is_absolute, pp_is_absolute. cbn [existsb]. rewrite orb_false_r. intros Ha.
-  rewrite check_archive_path_char, spec_ok_comps, Ha. split; reflexivity.
+  rewrite check_archive_path_spec, spec_ok_comps, Ha. reflexivity.
 Qed.
-
-(* an accepted name either stays inside or spells the last dummy component *)
-Theorem accepted_inside_or_dummy name :
-  check_archive_path name = true -> spec_ok name = true \/ In d6 (split name).
-Proof.
-  intros Hc. destruct (in_dec (list_eq_dec Z.eq_dec) d6 (split name)) as [Hin | Hnot]; [right; exact Hin|].
-  left. rewrite <- (check_archive_path_spec_partial name Hnot). exact Hc.
-Qed.
-
-Theorem check_archive_path_cwd_irrelevant cwd name : check_archive_path_cwd cwd name = check_archive_path name.
-Proof. reflexivity. Qed.
 
 (* ---------------------------------------------------------------- C16 (2): _sanitize_archive_arcname *)
 Theorem sanitize_relative arc r : sanitize_archive_arcname arc = Ok r ->
@@ -491,15 +290,6 @@ Proof.
 Qed.
 
 (* ---------------------------------------------------------------- C16 (3): the stored name *)
-Lemma splitroot_rel s : startswith_slash s = false -> splitroot s = ([], s).
-Proof. destruct s as [|c r]; [reflexivity|]. simpl. intros ->. reflexivity. Qed.
-
-Lemma parse_rel name : startswith_slash name = false -> parse_str name = ([], comps name).
-Proof.
-  intros Hrel. unfold parse_str. destruct name as [|c r]; [reflexivity|]. cbn [isnil].
-  rewrite splitroot_rel by exact Hrel. reflexivity.
-Qed.
-
 (* the name stored for a non-absolute arcname does not start with '/' *)
 Theorem make_name_relative name : is_absolute name = false -> is_absolute (make_name name) = false.
 Proof.
@@ -587,28 +377,17 @@ Qed.
 Theorem stored_name_same_verdict name : spec_ok (make_name name) = spec_ok name.
 Proof. rewrite (spec_ok_parse (make_name name)), make_name_same_path, <- spec_ok_parse. reflexivity. Qed.
 
-Lemma check_parse name :
-  check_archive_path name = isnil (fst (parse_str name)) &&
-    prefixb dummy_comps (rev (fold_left mstep (snd (parse_str name)) R)).
-Proof.
-  rewrite check_archive_path_char, startswith_slash_root, negb_involutive.
-  destruct (isnil (fst (parse_str name))) eqn:Hr; [|reflexivity]. cbn [andb].
-  assert (Hs : startswith_slash name = false) by (rewrite startswith_slash_root, Hr; reflexivity).
-  rewrite (parse_rel name Hs). reflexivity.
-Qed.
-
 Theorem stored_name_same_check name : check_archive_path (make_name name) = check_archive_path name.
-Proof. rewrite (check_parse (make_name name)), make_name_same_path, <- check_parse. reflexivity. Qed.
+Proof. rewrite !check_archive_path_spec. apply stored_name_same_verdict. Qed.
 
-(* what writestr/writef store for an accepted name *)
-Theorem accepted_stored_relative name : check_archive_path name = true ->
-  is_absolute (make_name name) = false /\
-  (spec_ok (make_name name) = true \/ In d6 (split name)).
+(* what writestr/writef store for an accepted name: a relative name that stays inside *)
+Theorem accepted_stored_inside name : check_archive_path name = true ->
+  is_absolute (make_name name) = false /\ spec_ok (make_name name) = true.
 Proof.
   intros Hc. split.
   - apply make_name_relative. destruct (is_absolute name) eqn:Ha; [|reflexivity].
-    destruct (absolute_rejected name Ha) as [Hf _]. congruence.
-  - rewrite stored_name_same_verdict. apply accepted_inside_or_dummy. exact Hc.
+    rewrite (absolute_rejected name Ha) in Hc. discriminate.
+  - rewrite stored_name_same_verdict, <- check_archive_path_spec. exact Hc.
 Qed.
 
 (* what write(file) / writeall store with arcname None *)
@@ -639,44 +418,6 @@ Qed.
 Theorem write_drive_reappears :
   write_name_str [46; 47; 99; 58; 47; 120] = Ok [99; 58; 47; 120] /\ drive_prefix [99; 58; 47; 120] = true.
 Proof. vm_compute. split; reflexivity. Qed.
-
-(* the side condition as DESIGN.md words it: no component of the name is a component of the dummy path *)
-Corollary check_archive_path_spec_partial_dummy name :
-  (forall c, In c (split name) -> ~ In c dummy_comps) -> check_archive_path name = spec_ok name.
-Proof.
-  intros Hno. apply check_archive_path_spec_partial. intros Hin. apply (Hno d6 Hin).
-  unfold dummy_comps. simpl. tauto.
-Qed.
-
-(* ---------------------------------------------------------------- a repair that meets the specification *)
-(* not code that exists: the depth computed lexically over Path(arcname).parts instead of through the
-   dummy parent (the diff proposed in the C16 report) *)
-Fixpoint lex_walk (ps : list str) (depth : Z) : bool :=
-  match ps with
-  | [] => true
-  | p :: r =>
-      if str_eqb p s_dotdot then (if depth - 1 <? 0 then false else lex_walk r (depth - 1))
-      else lex_walk r (depth + 1)
-  end.
-
-Definition check_archive_path_lexical (arcname : str) : bool :=
-  if is_absolute arcname then false else lex_walk (posix_parts arcname) 0.
-
-Lemma lex_walk_spec cs : Forall (fun c => good_comp c = true) cs -> forall d, lex_walk cs d = spec_walk cs d.
-Proof.
-  induction cs as [|c cs IHcs]; intros Hall d; [reflexivity|].
-  inversion Hall as [|? ? Hc Hcs]; subst. cbn [lex_walk spec_walk]. rewrite (good_not_skipped c Hc).
-  destruct (str_eqb c s_dotdot); [|apply IHcs; exact Hcs].
-  destruct (d - 1 <? 0); [reflexivity | apply IHcs; exact Hcs].
-Qed.
-
-Theorem lexical_check_meets_spec name : check_archive_path_lexical name = spec_ok name.
-Proof.
-  unfold check_archive_path_lexical, is_absolute, pp_is_absolute. cbn [existsb]. rewrite orb_false_r.
-  rewrite spec_ok_comps. destruct (startswith_slash name) eqn:Hs; [reflexivity|]. cbn [negb andb].
-  unfold posix_parts, pp_parts, pp_parse. cbn [raw_path]. rewrite (parse_rel name Hs). cbn [isnil].
-  apply lex_walk_spec. apply comps_good.
-Qed.
 
 (* ---------------------------------------------------------------- the name as py7zr lists it *)
 (* py7zr's reader turns every backslash of a stored name into '/'; the write-side checks (POSIX) do not
@@ -766,10 +507,15 @@ Proof.
 Qed.
 
 (* ---------------------------------------------------------------- non-vacuity examples *)
-Example ex_partial_hyp : ~ In d6 (split [97; 47; 46; 46; 47; 46; 46; 47; 98]).     (* "a/../../b" *)
-Proof. vm_compute. intros H. repeat (destruct H as [H | H]; [discriminate H|]). exact H. Qed.
+(* the names the check accepted before the fix (it resolved '..' against a concrete dummy directory
+   /foo/boo/fuga/hoge/a90sufoiasj09/dafj08sajfa): "../dafj08sajfa/x", "a/../../dafj08sajfa" *)
+Definition d6 : str := [100; 97; 102; 106; 48; 56; 115; 97; 106; 102; 97].
+Definition witness1 : str := [46; 46; 47] ++ d6 ++ [47; 120].
+Definition witness2 : str := [97; 47; 46; 46; 47; 46; 46; 47] ++ d6.
+Example ex_former_witnesses_rejected : check_archive_path witness1 = false /\ check_archive_path witness2 = false.
+Proof. vm_compute. split; reflexivity. Qed.
 
-Example ex_partial_both_false :
+Example ex_climbing_rejected :                                                  (* "a/../../b" *)
   check_archive_path [97; 47; 46; 46; 47; 46; 46; 47; 98] = false /\ spec_ok [97; 47; 46; 46; 47; 46; 46; 47; 98] = false.
 Proof. vm_compute. split; reflexivity. Qed.
 
